@@ -294,7 +294,7 @@ def observe_e2e(prot, rows, rng_seed, work):
 
 def report(acc, signature, message, case, expected=None, observed=None):
     acc.count("viol:" + signature)
-    if acc.extra["viol:" + signature] <= 5:
+    if acc.extra["viol:" + signature] <= 2:
         acc.violation(Violation(signature, message, case, expected, observed))
     else:
         acc.n_violations += 1
@@ -422,7 +422,7 @@ def plan(quick):
                     e_rmax = 2 if nu <= 2 else 1
                 else:
                     e_rmax = 3 if (t <= 2 and nu <= 2) else 2 if t <= 2 else 1
-                add(db, few, "e2e", nslices=max(1, count(e_rmax) * 2 // 25), rmax=e_rmax, rmax2=1)
+                add(db, few, "e2e", nslices=max(1, count(e_rmax) * 2 // 25), rmax=e_rmax, rmax2=2)
     return items
 
 
@@ -490,8 +490,9 @@ def worker(item):
 
 def run(ctx):
     items = plan(ctx.quick)
-    # long items first (end-to-end runs are ~15x a direct call)
-    items.sort(key=lambda it: (it["family"] != "e2e", -len(it["targets"])))
+    # end-to-end items first (a run is ~15x a direct call); within a family simplest databases first, so that the
+    # violations kept (the accumulator keeps a bounded number) include the smallest ones
+    items.sort(key=lambda it: (it["family"] != "e2e", len(it["targets"]), sum(map(len, it["targets"]))))
     ctx.pmap(worker, items)
     ctx.exhaustive = True
     dbs = {t: len(canonical_databases(t)) for t in (1, 2, 3)}
